@@ -153,6 +153,18 @@ var c10Scripts = []c10Script{
 		func(x *c10Ctx) { x.in = x.w.Connect(x.ps.Addr); x.in.Handshake(x.ps.RemoteAS, 90, remoteIDu) },
 		func(x *c10Ctx) { x.in.Close() },
 	}},
+	{name: "partial-update", setup: func(x *c10Ctx) { x.ps.Passive = true }, steps: []func(*c10Ctx){
+		func(x *c10Ctx) { x.in = x.w.Connect(x.ps.Addr); x.in.Handshake(x.ps.RemoteAS, 90, remoteIDu) },
+		func(x *c10Ctx) { x.in.Send(wire.Update(make([]byte, 100))[:29]) }, // a header and part of its body
+		func(x *c10Ctx) { time.Sleep(time.Millisecond) },
+	}},
+	{name: "partial-open", setup: func(x *c10Ctx) { x.ps.Passive = true }, steps: []func(*c10Ctx){
+		func(x *c10Ctx) { x.in = x.w.Connect(x.ps.Addr) },
+		func(x *c10Ctx) {
+			x.in.Send(wire.Msg(wire.TypeOpen, x.in.StdOpen(x.ps.RemoteAS, 90, remoteIDu).Body())[:25])
+		},
+		func(x *c10Ctx) { time.Sleep(time.Millisecond) },
+	}},
 	{name: "hold-zero", setup: func(x *c10Ctx) { x.ps.Passive = true; x.ps.Hold = 0 }, steps: []func(*c10Ctx){
 		func(x *c10Ctx) { x.in = x.w.Connect(x.ps.Addr) },
 		func(x *c10Ctx) { x.open(x.in) },
@@ -190,7 +202,17 @@ func c10World(t *testing.T, p c10Params, instants *[]int64) rt.Result {
 	if p.Stop == "ListenerFail" && p.Seed%2 == 1 {
 		extra = 2 // three listeners failing at the same instant
 	}
-	out := hz.Run(t, hz.Opts{Seed: p.Seed, HookMode: p.Hook, HookDelays: c10FixedDelays, ExtraListeners: extra}, func(w *hz.World) {
+	closeDelay := time.Duration(0)
+	if p.Step >= 0 && p.Seed%4 == 1 {
+		// quiesced stops only (nothing contends for Server.mu): closing a connection takes
+		// 100 us, so a stop that returns before its connections are closed is seen
+		closeDelay = 100 * time.Microsecond
+	}
+	closeYields := 0
+	if p.Step < 0 && p.Seed%2 == 1 {
+		closeYields = 40 // timed stops: a close that is slow without letting virtual time pass
+	}
+	out := hz.Run(t, hz.Opts{Seed: p.Seed, HookMode: p.Hook, HookDelays: c10FixedDelays, ExtraListeners: extra, CloseDelay: closeDelay, CloseYields: closeYields}, func(w *hz.World) {
 		x := &c10Ctx{w: w, ps: hz.StdPeer("10.0.1.1")}
 		x.ps.Hold = 90
 		sc.setup(x)
@@ -250,7 +272,7 @@ func c10World(t *testing.T, p c10Params, instants *[]int64) rt.Result {
 		// state was already OpenSent or later stays in one of the three states until it
 		// is stopped, whatever transition is in flight.
 		benign := map[string]bool{"inbound-passive": true, "inbound-active": true, "outbound": true, "outbound-slow-dial": true,
-			"collision": true, "collision-simul": true, "writers": true, "writers-out": true, "hold-zero": true}
+			"collision": true, "collision-simul": true, "writers": true, "writers-out": true, "hold-zero": true, "partial-update": true, "partial-open": true}
 		if quiesced || benign[p.Script] {
 			latest := map[string]*hz.RConn{}
 			for _, c := range w.Conns() { // race-free view of the connections made so far
@@ -265,6 +287,7 @@ func c10World(t *testing.T, p c10Params, instants *[]int64) rt.Result {
 			}
 		}
 		wasUp := x.mon.Up()
+		held := w.HeldPairsOf(x.ps.Addr) // connections corebgp has already used when the stop is issued
 		before := w.Now()
 		switch p.Stop {
 		case "Close":
@@ -294,6 +317,13 @@ func c10World(t *testing.T, p c10Params, instants *[]int64) rt.Result {
 		default:
 			if err := w.DeletePeer(x.ps.Addr); err != nil {
 				w.Violate("%s DeletePeer returned %v", desc, err)
+			}
+		}
+		for _, c := range held {
+			// judged at the very return, also with a script running concurrently: these
+			// connections were in corebgp's hands before the stop began
+			if c.Pair.Closed(0) == 0 {
+				w.Violate("%s connection %d (%s), which corebgp had already used when %s was called, is still open on corebgp's side at its return", desc, c.ID, c.Dir, p.Stop)
 			}
 		}
 		took := w.Now() - before
